@@ -176,6 +176,9 @@ theorem readFrame_cases (s : State) (f : Frame) :
   next =>
   split
   next => exact .inl rfl
+  next =>
+  split
+  next => exact .inl rfl
   next k hk =>
   simp only [getCall]
   split
